@@ -50,10 +50,10 @@ def run(ck, prog):
         compare_tables(ck, "PART-ALG", SEQ_PATH + ":Sequence." + meth, subst_rows(code, sub), subst_rows(ref, sub), slot,
                        where=f.loc(), note=what + ": sum of Henderson-Hasselbalch fractions of K,R,H (+) and D,E,C,Y (-)")
         ck.count("pH formulas compared")
-    _terms(ck, prog, pair)
-    _verify_ph(ck, prog)
-    _pI(ck, prog)
-    check_api(ck, prog, [("get_isoelectric_point", "isoelectric_point", None)])
+    ck.attempt(_terms, ck, prog, pair)
+    ck.attempt(_verify_ph, ck, prog)
+    ck.attempt(_pI, ck, prog)
+    ck.attempt(check_api, ck, prog, [("get_isoelectric_point", "isoelectric_point", None)])
     ck.floor("pH formulas", ck.analysed.get("pH formulas compared", 0), 7)
 
 
